@@ -1,0 +1,17 @@
+//! Verification hooks (feature `iggy_verif` only). Nothing here is compiled into a normal build.
+use std::sync::atomic::{AtomicI64, Ordering};
+
+/// Fault switch for `Persister::append`: when set to n > 0, the n-th append from now fails.
+static FAIL_APPEND_IN: AtomicI64 = AtomicI64::new(0);
+
+pub fn fail_append_in(n: i64) {
+    FAIL_APPEND_IN.store(n, Ordering::SeqCst);
+}
+
+pub fn should_fail_append(_path: &str) -> bool {
+    let n = FAIL_APPEND_IN.load(Ordering::SeqCst);
+    if n <= 0 {
+        return false;
+    }
+    FAIL_APPEND_IN.fetch_sub(1, Ordering::SeqCst) == 1
+}
